@@ -380,8 +380,8 @@ def free(r):
         return free(r[1]) - {r[2]}
     if t == "markov":      # ("markov", time, prev, curr, trans): the step names are re-exposed as inputs
         return (free(r[4]) - {r[1], r[2], r[3]}) | {r[2], r[3]}
-    if t == "integ":       # ("integ", v, mask_leaf, integrand)
-        return (free(r[2]) | free(r[3])) - {r[1]}
+    if t == "integ":       # ("integ", v | (v1, v2, …), mask_leaf, integrand): binds every listed name in BOTH sub-terms
+        return (free(r[2]) | free(r[3])) - set(_ivars(r))
     if t == "scatter":     # ("scatter", dest, src, perm, source)
         return (free(r[4]) - {r[2]}) | {r[1]}
     if t == "approx":      # ("approx", v, model, guide_leaf)
@@ -397,6 +397,11 @@ def free(r):
 def has_indep(r):
     return r[0] == "indep" or any(has_indep(x) for x in r if isinstance(x, tuple) and x and isinstance(x[0], str)
                                   and x[0] in TAGS)
+
+
+def _ivars(r):
+    """the reduced names of an ("integ", names, mask, integrand) node (one name or a tuple of names)"""
+    return (r[1],) if isinstance(r[1], str) else tuple(r[1])
 
 
 def has_tag(r, tag):
@@ -445,7 +450,7 @@ def binders(r):
         elif t == "markov":
             out += [s[1], s[2], s[3]]
         elif t == "integ":
-            out.append(s[1])
+            out += list(_ivars(s))
         elif t == "scatter":
             out.append(s[2])
         elif t == "fac":
@@ -534,7 +539,7 @@ def build(r, n, cache=None):
             with np.errstate(divide="ignore"):
                 cache[key] = np.log(_arr(m[3], m[2], n, np.float64))
         lm = Tensor(cache[key], OrderedDict((x, Bint[n]) for x in m[2]), "real")
-        return Integrate(lm, build(r[3], n, cache), frozenset({Variable(r[1], Bint[n])}))
+        return Integrate(lm, build(r[3], n, cache), frozenset(Variable(v_, Bint[n]) for v_ in _ivars(r)))
     if t == "scatter":
         key = ("perm", r[3], r[2])
         if key not in cache:
@@ -611,7 +616,7 @@ def wire(r, n):
             terms.append(["subs", body, sub])
         return ["contraction", "add", "mul", [[Q(x), B] for x in mid]] + terms
     if t == "integ":
-        return ["contraction", "add", "mul", [[Q(r[1]), B]], wire(r[2], n), wire(r[3], n)]
+        return ["contraction", "add", "mul", [[Q(v_), B] for v_ in _ivars(r)], wire(r[2], n), wire(r[3], n)]
     if t == "scatter":
         inv = [list(r[3]).index(d) for d in range(n)]
         return ["subs", wire(r[4], n), [[Q(r[2]), ["tensor", [[Q(r[1]), n]], B, inv]]]]
@@ -674,7 +679,8 @@ def pyof(r, n, names=None):
         m = r[2]
         lm = (f"Tensor(np.log(L{m[1]}_{'_'.join(m[2]) or 'c'}), OrderedDict([" +
               ", ".join(f"({x!r}, Bint[{n}])" for x in m[2]) + "]), 'real')")
-        return f"Integrate({lm}, {pyof(r[3], n)}, frozenset({{Variable({r[1]!r}, Bint[{n}])}}))"
+        vs_ = ", ".join(f"Variable({v_!r}, Bint[{n}])" for v_ in _ivars(r))
+        return f"Integrate({lm}, {pyof(r[3], n)}, frozenset({{{vs_}}}))"
     if t == "scatter":
         return (f"Scatter(ops.add, (({r[1]!r}, Tensor(np.array({list(r[3])}), OrderedDict([({r[2]!r}, Bint[{n}])]), {n})),), "
                 f"{pyof(r[4], n)}, frozenset({{Variable({r[2]!r}, Bint[{n}])}}))")
@@ -796,7 +802,12 @@ def pyeval(r, env, n, xval=None):
             M = [[sum(M[a][m] * mats[k][m][b] for m in range(n)) for b in range(n)] for a in range(n)]
         return M[env[p]][env[c]]
     if t == "integ":
-        return sum(pyeval(r[2], {**env, r[1]: i}, n, xval) * pyeval(r[3], {**env, r[1]: i}, n, xval) for i in range(n))
+        vs_ = _ivars(r)
+        tot = 0
+        for pt in itertools.product(range(n), repeat=len(vs_)):
+            e2 = {**env, **dict(zip(vs_, pt))}
+            tot += pyeval(r[2], e2, n, xval) * pyeval(r[3], e2, n, xval)
+        return tot
     if t == "scatter":
         e2 = dict(env)
         d = e2.pop(r[1])
@@ -887,9 +898,11 @@ def rename_binders(r, counter=None, m=None):
         u = fresh()
         return ("markov", u, nm(r[2]), nm(r[3]), rename_binders(r[4], counter, {**m, r[1]: u}))
     if t == "integ":
-        u = fresh()
-        m2 = {**m, r[1]: u}
-        return ("integ", u, rename_binders(r[2], counter, m2), rename_binders(r[3], counter, m2))
+        vs_ = _ivars(r)
+        us = tuple(fresh() for _ in vs_)
+        m2 = {**m, **dict(zip(vs_, us))}
+        return ("integ", us if not isinstance(r[1], str) else us[0], rename_binders(r[2], counter, m2),
+                rename_binders(r[3], counter, m2))
     if t == "scatter":
         u = fresh()
         return ("scatter", nm(r[1]), u, r[3], rename_binders(r[4], counter, {**m, r[2]: u}))
@@ -1539,6 +1552,63 @@ res = reinterpret(res)
 print(res, 'expected', {want})
 FAILS = bool(res.inputs) or abs(float(res.data) - {want}) > 1e-9
 """
+
+
+def onesub_stream(ctx):
+    """Binder classes with SEVERAL sub-terms: a bound name that occurs in exactly ONE of them (each position), next to
+    a sibling factor mentioning a FREE variable of the same user-level name.  The class's `_alpha_convert` must
+    rename the name in every sub-term it occurs in — and only the binder's own occurrences."""
+    rng = ctx.rng
+    cases = []
+    for n in ([2] if ctx.tier == "quick" else [2, 3]):
+        g = Gen(rng, n)
+        for v, w, u in itertools.permutations(POOL, 3):
+            L = lambda names: g.leaf("real", list(names))      # noqa: E731
+            mask = lambda names: ("leaf", g.fresh_lid(), tuple(names), tuple(rng.choice([0, 1, 1]) for _ in range(n ** len(names))))  # noqa: E731
+            inner = [
+                # Integrate over {w, v}: v only in the integrand / only in the measure / in both; w in both
+                ("integ", (w, v), mask([u, w]), L([w, v])),
+                ("integ", (v, w), mask([w, v]), L([w, u])),
+                ("integ", (w, v), mask([w, v]), L([v, w])),
+                ("integ", (v,), mask([u]), L([v, u])),                 # measure does not mention the bound name at all
+                ("integ", (v,), mask([v, u]), L([u])),                 # integrand does not mention it
+                # Contraction: v only in the first / only in the second operand
+                ("contr", "add", "mul", v, L([v, w]), L([w, u])),
+                ("contr", "add", "mul", v, L([w, u]), L([v, w])),
+                ("contr", "max", "add", v, L([v, w]), L([u])),
+                # Subs: the key occurs in the argument only; the value mentions a free variable of the same name
+                ("subs", L([v, w]), v, g.leaf("bint", [v])),
+                ("msubs", L([v, w]), ((v, ("bvar", w)), (w, g.leaf("bint", [v])))),
+                # factory binders with two Funsor arguments
+                ("fac", "FDotMid", (v,), (L([v, w]), L([w, u])), ()),
+                ("fac", "FDotMid", (v,), (L([w, u]), L([v, w])), ()),
+                ("fac", "FDotFirst", (v,), (L([v, w]), L([u])), ()),
+                ("fac", "FDotFirst", (v,), (L([u]), L([v, w])), ()),
+                ("fac", "FLamGet", (v,), (L([v, w]), ("bvar", u)), ()),
+                # Scatter: the reduced name in the index tensor only (the source does not mention it) / in both
+                ("scatter", "s", v, tuple(reversed(range(n))), L([w, u])),
+                ("scatter", "s", v, tuple(reversed(range(n))), L([v, w])),
+                # MarkovProduct: the time name only in the transition / nowhere (homogeneous); Independent
+                ("markov", v, "p", "q", ("binary", "mul", L([v, w]), L(["p", "q"]))),
+                ("markov", v, "p", "q", ("binary", "mul", L([w]), L(["p", "q"]))),
+                ("indep", L([v, w]), v, "y"),
+            ]
+            for t_ in inner:
+                # a sibling factor with a FREE variable of the bound name, and an enclosing binder over it
+                sib = ("binary", "mul", t_, L([v, u]))
+                cases.append((n, t_))
+                cases.append((n, sib))
+                cases.append((n, ("reduce", "add", sib, v)))
+                cases.append((n, ("subs", sib, v, ("bvar", w))))
+    if ctx.tier == "quick" and len(cases) > 260:
+        cases = rng.sample(cases, 260)
+    out = []
+    for n, r in cases:
+        ins = sorted(free(r))
+        if len(ins) <= 4:
+            out.append((n, r, (1, 2, 3)[:n] if has_indep(r) else None, ins))
+    ctx.count("onesub:cases", len(out))
+    check_cases(ctx, out, "onesub")
 
 
 def simsubs_stream(ctx):
@@ -2608,8 +2678,9 @@ def correspond(ctx):
                 (3 if quick else 4))
     enum_stream(ctx)
     simsubs_stream(ctx)
+    onesub_stream(ctx)
     fusion_stream(ctx)
-    clean_stream(ctx, 700 if quick else 5000)
+    clean_stream(ctx, 600 if quick else 5000)
     extras_stream(ctx, 80 if quick else 600)
     thread_stream(ctx)
     gauss_integrate_stream(ctx, 200 if quick else 2000)
